@@ -1,4 +1,5 @@
 """C14 — a collider after update_pose behaves like a freshly built one at that pose (structural clauses)."""
+from . import scopes
 from ..core.report import DOMAIN_D
 from ..rules import eager, colliders
 from .common import e1
@@ -7,6 +8,7 @@ MODS = {"distance3d.colliders", "distance3d.mesh"}
 
 
 def run(idx, rep, tier):
+    rep.set_scope(scopes.scope(idx, "C14"))
     rep.explanation = (
         "R-COHERENCE: per class with a non-raising update_pose, every attribute whose constructor value depends on the "
         "pose-carrying constructor parameters is refreshed (stored, recomputed with the constructor's own expression, or "
@@ -20,6 +22,4 @@ def run(idx, rep, tier):
     colliders.r_coherence(idx, rep)
     colliders.r_roundtrip(idx, rep)
     colliders.r_querystate(idx, rep)
-    scope = MODS if tier == "quick" else None
-    eager.r_eager(idx, rep, it, caller_filter=(lambda f: f.module.name in MODS) if scope else None,
-                  floor=15 if scope else 150, unknown_ceiling=2 if scope else 30)
+    eager.r_eager(idx, rep, it, caller_filter=lambda f: f.module.name in MODS, floor=15, unknown_ceiling=2)
